@@ -259,6 +259,54 @@ def run(R):
         R.viol("C05.versions.whole", "anchor-missing:SplitRecord", "fewer than 3 SplitRecord constructions found (%d)" % n_split)
     R.inst("C05.versions.whole", "K6 flows-to", "SplitRecord{result_map} is the whole version map", n_split, not lossy and n_split >= 3)
 
+    # (2e) a value is handed out only from the query's own verdict or from the split resolution — never assembled in the retry loop
+    grn = R.body("C05.retry", "ant_networking::Network::get_record_from_network::{closure#0}")
+    if grn is not None:
+        prep(grn)
+        okrec = AggSink("core::result::Result", "Ok", dest_ty="Record")
+        # the awaited oneshot result: Ok(Ok(record)) ; the split resolution: Ok(Some(record))
+        class _Awaited:
+            """the value awaited from the query's oneshot channel: Poll::Ready(Ok(Ok(record)))"""
+            label = "the query itself returned Ok(record)"
+
+            def edges(self, body):
+                tr = Tracker(body)
+                n = 0
+                for blk in body.blocks:
+                    t = blk["term"]
+                    if t["k"] == "call" and not blk["cleanup"] and len(t["d"]) == 1 and callee_matches(t, ["*oneshot::Receiver<T> as core::future::future::Future>::poll"]):
+                        tr.states.setdefault(t["d"][0], set()).add(("poll", ("Ok", "Ok"), False))
+                        n += 1
+                tr.run()
+                return n, tr.accept, tr.reject
+        g_query = _Awaited()
+        g_split = CallGuard([SPLIT], ("Ok", "Some"), "handle_split_record_error produced a merged record")
+        R.gate("C05.retry", grn, okrec, [[g_query, g_split]], descr="get_record_from_network returns a record only from the query's own Ok or from the split resolution")
+    # (2f) the settings of a pending query are fixed when it is created: nothing overwrites a GetRecordCfg in place
+    n_cfg, overw = 0, []
+    for b in F.bodies.values():
+        if b.crate != "ant_networking" or "::tests::" in b.path:
+            continue
+        try:
+            locs = b.locals
+        except KeyError:
+            continue
+        if not any("GetRecordCfg" in t for t in locs.values()):
+            continue
+        n_cfg += 1
+        for blk in b.blocks:
+            if blk["cleanup"]:
+                continue
+            for st in blk["stmts"]:
+                d = st["d"]
+                if len(d) == 2 and d[1] == "*" and "&mut ant_networking::driver::GetRecordCfg" in locs.get(str(d[0]), ""):
+                    overw.append((b, st["l"]))
+    for b, ln in overw:
+        R.viol("C05.cfg.stable", "cfg-overwritten:%s" % R.root_path(b).split("::")[-1], "%s overwrites the GetRecordCfg of an existing entry: callers already waiting on that query get another caller's quorum / expected value" % R.root_path(b), b, ln)
+    if n_cfg < 3:
+        R.viol("C05.cfg.stable", "anchor-missing:GetRecordCfg", "fewer than 3 functions handling GetRecordCfg found (%d)" % n_cfg)
+    R.inst("C05.cfg.stable", "K2 who-may-write", "a GetRecordCfg is never overwritten in place (a pending query keeps the settings it was created with)", n_cfg, not overw and n_cfg >= 3)
+
     # (4) one outcome per waiting caller
     n_sites = 0
     for nm, b in (("acc", acc), ("fin", fin), ("err", err)):
@@ -370,6 +418,13 @@ def run(R):
                                     and "SignedRegister" in b.locals.get(str(op_local(blk["term"]["args"][1])), "")], "collected_registers.push")
         R.gate("C05.merge.reg", sp, push, [[CallGuard(["ant_registers::register::SignedRegister::verify"], ("Ok",), "register.verify() is Ok")]],
                descr="split registers: only verified registers are merged")
+        folds = [c for c in F.item(SPLIT) if c.kind == "closure" and any((x["ncallee"] or "").endswith(("SignedRegister::merge", "SignedRegister::verified_merge")) for x in c.calls)]
+        okf = bool(folds)
+        for c in folds:
+            okf = R.must_pass("C05.merge.reg.all", c, [("merge(acc, x)", CallSink("ant_registers::register::SignedRegister::merge", "ant_registers::register::SignedRegister::verified_merge"))],
+                              descr="split registers: every collected copy is merged into the accumulator (none is skipped)") and okf
+        if not folds:
+            R.viol("C05.merge.reg.all", "fold-missing", "no fold closure merging the collected registers found", sp, sp.lines[0])
         R.must_call("C05.merge.reg.merge", SPLIT, ["ant_registers::register::SignedRegister::merge", "ant_registers::register::SignedRegister::verified_merge"], "registers are merged (set union of ops)")
         ext = [b for b in sp.blocks if b["term"]["k"] == "call" and not b["cleanup"] and (b["term"]["ncallee"] or "").endswith("HashSet<T, S, A> as core::iter::traits::collect::Extend<T>>::extend")]
         txs = Taint(sp, through="all").closure(call_results(["ant_networking::transactions::get_transactions_from_record", "*::get_transactions_from_record"])(sp))
